@@ -21,6 +21,7 @@ EXPLANATION = (
     "a new writer is a violation until read. (not-queued) a stored C-CANCEL is not also put on the "
     "message queue. Not decided: arrival-time races between the provider thread inserting and the "
     "association thread clearing (a cancel that overtakes the start of its own operation)."
+    " Fifth round: (cancel-id-range) the C-CANCEL message id keeps C17's numeric range."
 )
 
 WRITERS_ALLOWED = {
